@@ -76,6 +76,13 @@ type handler1 struct {
 	// client (transactions).
 	brokerTransactions *transactions.TransactionStore
 
+	// brokerQOS0Transactions holds the broker PUBLISH QoS 0 exchanges
+	// which wait for the REGACK of their REGISTER. Their message IDs
+	// are chosen by the gateway (a QoS 0 PUBLISH has none), hence
+	// a later broker PUBLISH QoS 1/2 can bring the very same message ID
+	// and must not replace them.
+	brokerQOS0Transactions *transactions.TransactionStore
+
 	// topicIDMutex guards topicIDsExhausted and makes newTopicID atomic
 	// (it is called from both receive loops).
 	topicIDMutex      sync.Mutex
@@ -147,7 +154,8 @@ func newHandler(cfg *handlerConfig, predefinedTopics topics.PredefinedTopics,
 		topicID:          util.NewIDSequence(snPkts.MinTopicAlias, snPkts.MaxTopicAlias),
 		transactions:     transactions.NewTransactionStore(),
 
-		brokerTransactions: transactions.NewTransactionStore(),
+		brokerTransactions:     transactions.NewTransactionStore(),
+		brokerQOS0Transactions: transactions.NewTransactionStore(),
 	}
 
 	return h
@@ -384,7 +392,9 @@ func (h *handler1) handleBrokerPublish(ctx context.Context, mqPublish *mqPkts.Pu
 		// an "almost surely available" MsgID :(
 		found := false
 		for i := snPkts.MaxPacketID; i >= snPkts.MinPacketID; i-- {
-			if _, ok := h.brokerTransactions.Get(i); !ok {
+			_, used := h.brokerTransactions.Get(i)
+			_, usedQOS0 := h.brokerQOS0Transactions.Get(i)
+			if !used && !usedQOS0 {
 				msgID = i
 				found = true
 				break
@@ -431,6 +441,9 @@ func (h *handler1) handleBrokerPublish(ctx context.Context, mqPublish *mqPkts.Pu
 		// snPublish will be sent after REGACK is received
 		snPublish.TopicID = topicID
 		transaction.SetSNPublish(snPublish)
+		if qos0, ok := transaction.(*brokerPublishQOS0Transaction); ok {
+			qos0.registerTopicID = topicID
+		}
 
 		snRegister := snPkts1.NewRegister(topicID, mqPublish.TopicName)
 		snRegister.SetMessageID(msgID)
@@ -446,7 +459,11 @@ func (h *handler1) handleBrokerPublish(ctx context.Context, mqPublish *mqPkts.Pu
 		}
 	}
 
-	h.brokerTransactions.Store(msgID, transaction)
+	if mqPublish.Qos == 0 {
+		h.brokerQOS0Transactions.Store(msgID, transaction)
+	} else {
+		h.brokerTransactions.Store(msgID, transaction)
+	}
 	return transaction.ProceedSN(nextState, snPkt)
 }
 
@@ -1069,7 +1086,16 @@ func (h *handler1) handleMqttSn(ctx context.Context, pkt snPkts.Packet) error {
 	// registration and the client must acknowledge it.
 	case *snPkts1.Regack:
 		transactionx, _ := h.brokerTransactions.Get(snPkt.MessageID())
-		if transaction, ok := transactionx.(transactionWithRegack); ok {
+		transaction, ok := transactionx.(transactionWithRegack)
+		// A QoS 0 exchange and a QoS 1/2 exchange can wait for a REGACK
+		// with the same message ID; the TopicID tells them apart.
+		if qos0x, found := h.brokerQOS0Transactions.Get(snPkt.MessageID()); found {
+			if qos0, isQOS0 := qos0x.(*brokerPublishQOS0Transaction); isQOS0 &&
+				(!ok || qos0.registerTopicID == snPkt.TopicID) {
+				return qos0.Regack(snPkt)
+			}
+		}
+		if ok {
 			return transaction.Regack(snPkt)
 		}
 		h.log.Error("Unexpected transaction type %T for packet: %v", transactionx, snPkt)
